@@ -27,17 +27,31 @@ def arma(inp):
     import spectrum
     from spectrum.correlation import CORRELATION
     cx = inp.get("datatype") == "complex" or bool(inp.get("complex"))
-    for (N, P, Q, lag) in ((40, 3, 2, 8), (48, 6, 3, 12), (32, 2, 2, 6)):
+    for (N, P, Q, lag) in ((40, 3, 2, 8), (48, 6, 3, 12), (32, 2, 2, 6), (40, 4, 4, 10), (44, 1, 1, 5), (48, 5, 5, 12)):
         x = _x(N, cx)
         a, b, rho = spectrum.arma_estimate(x, P, Q, lag)
         if len(a) != P or len(b) != Q:
             return False, "arma_estimate(N=%d,P=%d,Q=%d,lag=%d): len(ar)=%d len(ma)=%d" % (N, P, Q, lag, len(a), len(b))
+        # AR part: forward least-squares (covariance-method) solution on the modified Yule-Walker sequence of unbiased lags;
+        # for P = Q that sequence is R[Q+1..lag] and these are the statement's modified Yule-Walker equations
+        R = np.asarray(CORRELATION(x, maxlags=lag, norm="unbiased"))
+        Y = np.zeros(lag, dtype=complex)
+        for K in range(0, lag - Q + P):
+            kpq = K + Q - P + 1
+            if K < lag:
+                Y[K] = np.conj(R[-kpq]) if kpq < 0 else R[kpq]
+        rows = np.array([[Y[n - j - 1] for j in range(P)] for n in range(P, lag)])
+        rhs = np.array([Y[n] for n in range(P, lag)])
+        ls = np.linalg.lstsq(-rows, rhs, rcond=None)[0]
+        if not close(np.asarray(a), ls, 1e-6):
+            return False, "arma_estimate(N=%d,P=%d,Q=%d,lag=%d): AR part is not the forward least-squares solution of the modified Yule-Walker system (max|diff| %.3g)" % (
+                N, P, Q, lag, float(np.max(np.abs(np.asarray(a) - ls))))
         # residual + ma() as stated
         y = np.array([x[k] + sum(a[j] * x[k - j - 1] for j in range(P)) for k in range(P, N)])
         b2, rho2 = spectrum.ma(y, Q, 2 * Q)
         if not (close(b, b2, 1e-9) and close(rho, rho2, 1e-9)):
             return False, "MA part is not ma(residual, Q, 2Q)"
-    return True, "arma_estimate as stated on 3 shapes"
+    return True, "arma_estimate as stated on 6 shapes"
 
 
 def ma(inp):
